@@ -16,6 +16,9 @@
 //!        ritiffi shard <depth> <k> <n> <dir> (child)
 //!        ritiffi replay <file>
 
+#[allow(dead_code)]
+#[path = "../../mc/src/keys.rs"]
+mod keys;
 use riti::config::Config;
 use riti::context::RitiContext;
 use riti::suggestion::Suggestion;
@@ -101,6 +104,8 @@ enum Act {
     CtxNew,
     CtxFree,
     Key(u8),
+    /// any key code with any modifier byte (key sweep only; not part of the enumerated alphabet)
+    KeyRaw(u16, u8),
     Bs,
     CtrlBs,
     CommitFirst,
@@ -132,10 +137,10 @@ struct Expected {
 
 fn expected_of(s: &Suggestion) -> Expected {
     if s.is_lonely() {
-        Expected { lonely: true, empty: s.is_empty(), len: 0, sel: 0, aux: String::new(), items: vec![s.get_lonely_suggestion().to_string()], pre: vec![s.get_pre_edit_text(0)] }
+        Expected { lonely: true, empty: s.is_empty(), len: 0, sel: 0, aux: String::new(), items: vec![s.get_lonely_suggestion().to_string()], pre: vec![s.get_pre_edit_text(0).to_string()] }
     } else {
         let items = s.get_suggestions().to_vec();
-        let pre = (0..items.len()).map(|i| s.get_pre_edit_text(i)).collect();
+        let pre = (0..items.len()).map(|i| s.get_pre_edit_text(i).to_string()).collect();
         Expected { lonely: false, empty: s.is_empty(), len: s.len(), sel: s.previously_selected_index(), aux: s.get_auxiliary_text().to_string(), items, pre }
     }
 }
@@ -346,6 +351,10 @@ impl World {
                 let p = riti_get_suggestion_for_key(self.ctx, KEYS[k as usize].0, 0, sel);
                 self.store(p);
             }
+            Act::KeyRaw(code, m) => {
+                let p = riti_get_suggestion_for_key(self.ctx, code, m, 0);
+                self.store(p);
+            }
             Act::Bs => {
                 let p = riti_context_backspace_event(self.ctx, false);
                 self.store(p);
@@ -488,6 +497,9 @@ fn parse_act(s: &str) -> Option<Act> {
         _ => {
             if let Some(n) = num("CfgNew(") {
                 Act::CfgNew(n)
+            } else if let Some(r) = s.strip_prefix("KeyRaw(").and_then(|r| r.strip_suffix(')')) {
+                let (a, b) = r.split_once(", ")?;
+                Act::KeyRaw(a.parse().ok()?, b.parse().ok()?)
             } else if let Some(n) = num("Key(") {
                 Act::Key(n)
             } else if let Some(n) = num("Read(") {
@@ -503,6 +515,8 @@ fn parse_act(s: &str) -> Option<Act> {
 
 static SEQS: AtomicU64 = AtomicU64::new(0);
 static CALLS: AtomicU64 = AtomicU64::new(0);
+static SWEEP: AtomicU64 = AtomicU64::new(0);
+static SKIPPED_K01: AtomicU64 = AtomicU64::new(0);
 static STRINGS: AtomicU64 = AtomicU64::new(0);
 
 struct Shard {
@@ -585,8 +599,91 @@ fn run_shard(depth: usize, k: usize, n: usize, dir: &str) -> i32 {
     let mut sh = Shard { k, n, depth, profiles: 4, xdg, journal, findings: vec![], counter: 0, samples: vec![] };
     let mut seq = vec![];
     sh.visit(&mut seq);
+    // ---- key sweep: the strings of EVERY published key (x no modifier / AltGr) cross the interface intact and are
+    // freed, from a set of composition states per profile (values the three keys of the alphabet never produce: empty
+    // values, multi-code-point values, rewritten compositions, ANSI conversions of every character of the layout)
+    let key = |c: char, m: u8| Act::KeyRaw(keys::code_for_char(c).unwrap(), m);
+    let pre_fixed: Vec<Vec<Act>> = vec![vec![], vec![key('k', 0)], vec![key('k', 0), key('/', 0)], vec![key('k', 0), key('a', 0)], vec![key('v', 0)], vec![key(',', 0)], vec![key('"', 0), key('k', 0)], vec![key('k', 0), key('/', 0), key('k', 0)]];
+    let pre_phon: Vec<Vec<Act>> = vec![vec![], vec![key('k', 0)], vec![key('a', 0)], vec![key(':', 0)], vec![key('`', 0)], vec![key('"', 0), key('k', 0)], vec![key('k', 0), key('O', 0)]];
+    // Known finding K01 (C01/C02/C16): with ANSI on, a text containing U+09C4 (or the unassigned U+09C5/6/9/A) makes the
+    // third-party Bijoy converter panic, which aborts the process at the C boundary. Those keys are left out of the ANSI
+    // profiles here (the abort would end the shard); everything else is swept.
+    let k01: Vec<(u16, u8)> = {
+        let repo = std::env::var("VERIF_REPO").ok().filter(|s| !s.is_empty()).unwrap_or_else(|| "/repo".to_string());
+        let v: serde_json::Value = serde_json::from_str(&std::fs::read_to_string(format!("{}/data/Probhat.json", repo)).expect("Probhat.json")).expect("layout json");
+        let mut out = vec![];
+        for (name, val) in v["layout"].as_object().expect("layout") {
+            let bad = val.as_str().unwrap_or("").chars().any(|c| matches!(c, '\u{09C4}' | '\u{09C5}' | '\u{09C6}' | '\u{09C9}' | '\u{09CA}'));
+            if !bad {
+                continue;
+            }
+            let Some(rest) = name.strip_prefix("Key_") else { continue };
+            let Some((entry, plane)) = rest.rsplit_once('_') else { continue };
+            for kd in keys::KEYS.iter().filter(|k| k.entry == Some(entry)) {
+                out.push((kd.code, if plane == "AltGr" { 2 } else { 0 }));
+            }
+        }
+        out
+    };
+    let mut item = 0usize;
+    for p in 0..4u8 {
+        let pres = if p >= 2 { &pre_fixed } else { &pre_phon };
+        for pre in pres {
+            for kd in keys::KEYS.iter() {
+                for m in [0u8, 2] {
+                    if p < 2 && m != 0 {
+                        continue; // the phonetic method ignores the modifier
+                    }
+                    if p == 3 && k01.contains(&(kd.code, m)) {
+                        SKIPPED_K01.fetch_add(1, Ordering::Relaxed);
+                        continue;
+                    }
+                    item += 1;
+                    if item % n != k {
+                        continue;
+                    }
+                    let mut s: Vec<Act> = vec![Act::CfgNew(p), Act::CtxNew];
+                    s.extend(pre.iter().cloned());
+                    s.push(Act::KeyRaw(kd.code, m));
+                    // every earlier suggestion is freed at once (slot 0 is reused), the last one is read out twice: by
+                    // Read(0) and again by the clean-up, after the context has been freed
+                    let mut full: Vec<Act> = vec![];
+                    let nev = s.iter().filter(|a| matches!(a, Act::KeyRaw(..))).count();
+                    let mut seen = 0;
+                    for a in s {
+                        let is_event = matches!(a, Act::KeyRaw(..));
+                        full.push(a);
+                        if is_event {
+                            seen += 1;
+                            full.push(if seen < nev { Act::SugFree(0) } else { Act::Read(0) });
+                        }
+                    }
+                    {
+                        use std::io::Seek;
+                        let _ = sh.journal.seek(std::io::SeekFrom::Start(0));
+                        let _ = sh.journal.write_all(format!("{}\n{:200}\n", seq_json(&full), "").as_bytes());
+                    }
+                    let o = execute(&full, &sh.xdg, 4);
+                    SEQS.fetch_add(1, Ordering::Relaxed);
+                    SWEEP.fetch_add(1, Ordering::Relaxed);
+                    CALLS.fetch_add(o.calls, Ordering::Relaxed);
+                    STRINGS.fetch_add(o.strings, Ordering::Relaxed);
+                    let mut problems = o.problems.clone();
+                    if o.leaked_blocks != 0 {
+                        let o2 = execute(&full, &sh.xdg, 4);
+                        if o2.leaked_blocks > 0 {
+                            problems.push(format!("leak: {} heap block(s) / {} byte(s) still live after every handle was freed (second run: {} / {})", o.leaked_blocks, o.leaked_bytes, o2.leaked_blocks, o2.leaked_bytes));
+                        }
+                    }
+                    if !problems.is_empty() {
+                        sh.findings.push(serde_json::json!({"sequence": full.iter().map(act_name).collect::<Vec<_>>(), "problems": problems}));
+                    }
+                }
+            }
+        }
+    }
     let out = serde_json::json!({
-        "shard": k, "sequences": SEQS.load(Ordering::Relaxed), "calls": CALLS.load(Ordering::Relaxed), "strings": STRINGS.load(Ordering::Relaxed),
+        "shard": k, "sequences": SEQS.load(Ordering::Relaxed), "key_sweep_sequences": SWEEP.load(Ordering::Relaxed), "key_sweep_skipped_k01": SKIPPED_K01.load(Ordering::Relaxed), "calls": CALLS.load(Ordering::Relaxed), "strings": STRINGS.load(Ordering::Relaxed),
         "findings": sh.findings,
         "samples": sh.samples,
     });
